@@ -160,3 +160,189 @@ Example C13_example_iris_history :
   (map (shown ex_pool) [1; 0; 3],
    [(1, None); (2, None); (2, None); (2, Some true); (2, None); (2, Some true); (3, None); (3, Some false)]).
 Proof. vm_compute. reflexivity. Qed.
+
+(* ---- function bodies under the translator: generated-table tie (b45) ---- *)
+(* Model/Coll.v was hand-written after the source and tied to it by the correspondence cases only; that the five
+   Append / Contains copies are the same function was established by those cases on each container.  Now Gen/CollT.v
+   is regenerated on every run (translator/gobody.go) with the 24 bodies of
+       ItemCollection.Append / Count / Collection / Remove, ToItemCollection, IRIs.Append / Collection / Count,
+       Collection / CollectionPage / OrderedCollection / OrderedCollectionPage . Append / Contains / Count / Collection
+   statement by statement in the imperative language of Model/GoBody.v (pointer receivers and struct fields written
+   through, append / slicing / make / indexed assignment, range with key and value, continue, the type switch of
+   ToItemCollection with its bound variable and address-taking; calls under the names go/types resolves them to; anything
+   outside the language is an explicit GsUnrec / GxUnrec entry).  ItemCollection.Contains and IRIs.Contains are in
+   Gen/ItemsEqT.v already (builder b32): they are the callees here, read from that table, not emitted twice.
+   Model/CollTab.v states the decidable condition coll_table_ok: each function has the body the model was written
+   after - for the four struct types ONE template per method, instantiated with the type's name, the receiver's
+   name and the field; so "the five copies are the same function" is now this condition, not a correspondence claim.
+   Proofs/CollTabP.v: for every table satisfying the conditions, for all receivers and arguments, the table's meaning
+   is ic_append_o / ic_remove_o / iris_append_o / sc_append_fs / to_ic_expect (Model/CollTab.v: the Go results with the
+   nil / empty distinction and the origin of a returned pointer kept), whose contents are the functions of
+   Model/Coll.v that c_step / c_contains / c_run are made of.  Results are (returned values, the receiver afterwards);
+   pic lo / piris lo = a pointer to an item list / IRI list, None behind it = the nil slice. *)
+From AP.Model Require Import Layout GoBody CollTab CollGen.
+From AP.Proofs Require Import GoBodyP CollTabP.
+From AP.Model Require ItemsEqTab ItemsEqGen ItemsEqEntry.
+
+(* generic: for EVERY body table satisfying coll_table_ok and EVERY ItemsEqual-helper table ietbl - whose two Contains
+   entries must have the modelled bodies (ic_callees_ok) where the function calls one of them; ItemsEqual itself is the
+   model's ieq (= its own tables by C09_ieq_gen) *)
+Theorem C13_append_table_tie : forall tbl, coll_table_ok tbl = true -> forall ietbl, ic_callees_ok ietbl = true ->
+  forall lo oobs, run_named (coll_env_t ietbl) tbl n_ic_append (Some (pic lo)) [vitems oobs]
+                  = Ok ([GvNil], Some (pic (ic_append_o lo (lst oobs)))).
+Proof. exact ic_append_both. Qed.
+
+Theorem C13_remove_table_tie : forall tbl, coll_table_ok tbl = true -> forall ietbl,
+  forall lo r, run_named (coll_env_t ietbl) tbl n_ic_remove (Some (pic lo)) [GvItem r] = Ok ([], Some (pic (ic_remove_o lo r))).
+Proof. exact ic_remove_both. Qed.
+
+(* Count: the length; 0 through a nil pointer.  Collection: the list itself *)
+Theorem C13_count_table_tie : forall tbl, coll_table_ok tbl = true -> forall ietbl,
+  (forall lo, run_named (coll_env_t ietbl) tbl n_ic_count (Some (pic lo)) [] = Ok ([GvInt (zlen (lst lo))], Some (pic lo))) /\
+  run_named (coll_env_t ietbl) tbl n_ic_count (Some pnil) [] = Ok ([GvInt 0], Some pnil).
+Proof. exact ic_count_both. Qed.
+Theorem C13_collection_table_tie : forall tbl, coll_table_ok tbl = true -> forall ietbl,
+  forall lo, run_named (coll_env_t ietbl) tbl n_ic_collection (Some (pic lo)) [] = Ok ([vitems lo], Some (pic lo)).
+Proof. exact ic_collection_both. Qed.
+
+(* the IRI list *)
+Theorem C13_iris_append_table_tie : forall tbl, coll_table_ok tbl = true -> forall ietbl, ic_callees_ok ietbl = true ->
+  forall lo oobs, run_named (coll_env_t ietbl) tbl n_iris_append (Some (piris lo)) [vitems oobs]
+                  = Ok ([GvNil], Some (piris (iris_append_o lo (lst oobs)))).
+Proof. exact iris_append_both. Qed.
+Theorem C13_iris_collection_table_tie : forall tbl, coll_table_ok tbl = true -> forall ietbl,
+  forall lo, run_named (coll_env_t ietbl) tbl n_iris_collection (Some (piris lo)) []
+             = Ok ([vitems (Some (iris_collection (lst lo)))], Some (piris lo)).
+Proof. exact iris_collection_both. Qed.
+Theorem C13_iris_count_table_tie : forall tbl, coll_table_ok tbl = true -> forall ietbl,
+  forall lo, run_named (coll_env_t ietbl) tbl n_iris_count (Some (piris lo)) [] = Ok ([GvInt (zlen (lst lo))], Some (piris lo)).
+Proof. exact iris_count_both. Qed.
+
+(* the four struct types (c ranges over Collection, CollectionPage, OrderedCollection, OrderedCollectionPage; sc_field c =
+   Items / OrderedItems), for a receiver of ANY struct kind k with ANY fields: Append rewrites the one field, ... *)
+Theorem C13_struct_append_table_tie : forall tbl, coll_table_ok tbl = true -> forall ietbl, ic_callees_ok ietbl = true ->
+  forall c k fs oobs,
+  run_named (coll_env_t ietbl) tbl (n_sc_append c) (Some (GvItem (IObj true k fs))) [vitems oobs]
+  = Ok ([GvNil], Some (GvItem (IObj true k (sc_append_fs (sc_field c) fs (lst oobs))))).
+Proof. exact sc_append_both. Qed.
+(* ... Contains is ItemCollection's on that field (value or pointer receiver), ... *)
+Theorem C13_struct_contains_table_tie : forall tbl, coll_table_ok tbl = true -> forall ietbl,
+  forall c p k fs r,
+  run_named (coll_env_t ietbl) tbl (n_sc_contains c) (Some (GvItem (IObj p k fs))) [GvItem r]
+  = Ok ([GvBool (ic_contains (lst (get_items (sc_field c) fs)) r)], Some (GvItem (IObj p k fs))).
+Proof. exact sc_contains_both. Qed.
+(* ... Count is the number of members (never totalItems), 0 through a nil pointer, Collection the field *)
+Theorem C13_struct_count_table_tie : forall tbl, coll_table_ok tbl = true -> forall ietbl,
+  forall c k,
+  (forall fs, run_named (coll_env_t ietbl) tbl (n_sc_count c) (Some (GvItem (IObj true k fs))) []
+              = Ok ([GvInt (zlen (lst (get_items (sc_field c) fs)))], Some (GvItem (IObj true k fs)))) /\
+  run_named (coll_env_t ietbl) tbl (n_sc_count c) (Some (GvItem (ITNil k))) [] = Ok ([GvInt 0], Some (GvItem (ITNil k))).
+Proof. exact sc_count_both. Qed.
+Theorem C13_struct_collection_table_tie : forall tbl, coll_table_ok tbl = true -> forall ietbl,
+  forall c p k fs,
+  run_named (coll_env_t ietbl) tbl (n_sc_collection c) (Some (GvItem (IObj p k fs))) []
+  = Ok ([vitems (get_items (sc_field c) fs)], Some (GvItem (IObj p k fs))).
+Proof. exact sc_collection_both. Qed.
+
+(* ToItemCollection on EVERY item: (pointer, error), with where the pointer points (the pointer that came in / INTO
+   the Items or OrderedItems field of the collection that came in - so a Remove through it reaches the collection -
+   / a fresh list for an IRI list or a by-value list) *)
+Theorem C13_to_item_collection_table_tie : forall tbl, coll_table_ok tbl = true -> forall ietbl,
+  forall i, run_named (coll_env_t ietbl) tbl n_to_ic None [GvItem i] = Ok (to_ic_expect i, None).
+Proof. exact to_ic_both. Qed.
+
+(* what those results ARE: the functions of Model/Coll.v on the contents, to_item_collection of Model/Equal.v *)
+Theorem C13_append_contents : forall lo obs, lst (ic_append_o lo obs) = ic_append (lst lo) obs.
+Proof. exact ic_append_o_contents. Qed.
+Theorem C13_remove_contents : forall lo r, lst (ic_remove_o lo r) = ic_remove (lst lo) r.
+Proof. exact ic_remove_o_contents. Qed.
+Theorem C13_iris_append_contents : forall lo obs, lst (iris_append_o lo obs) = iris_append (lst lo) obs.
+Proof. exact iris_append_o_contents. Qed.
+Theorem C13_struct_append_contents : forall f fs obs,
+  lst (get_items f (sc_append_fs f fs obs)) = ic_append (lst (get_items f fs)) obs /\
+  forall g, fid_beq g f = false -> getf g (sc_append_fs f fs obs) = getf g fs.
+Proof. intros f fs obs. split; [apply sc_append_fs_contents|intros g H; apply sc_append_fs_frame; exact H]. Qed.
+Theorem C13_to_item_collection_contents : forall i, is_nil i = false -> own_list_only i = true ->
+  ic_members (to_ic_expect i) = Some (to_item_collection i).
+Proof. exact to_ic_expect_members. Qed.
+
+(* diagnosis first: when the source moved, this is the obligation that fails, and Coq's error message names the
+   function, the position of the first top-level statement that differs, the generated and the modelled statement *)
+Theorem C13_coll_table_first_bad : coll_first_bad gen_coll_fns = None.
+Proof. vm_compute. reflexivity. Qed.
+
+(* the conditions on the tables regenerated from the source on this run *)
+Theorem C13_coll_table : coll_table_ok gen_coll_fns = true.
+Proof. vm_compute. reflexivity. Qed.
+Theorem C13_callee_entries_first_bad :
+  ItemsEqEntry.entry_first_bad ItemsEqGen.gen_itemseq_fns ItemsEqTab.m_ic_contains = None /\
+  ItemsEqEntry.entry_first_bad ItemsEqGen.gen_itemseq_fns ItemsEqTab.m_iris_contains = None.
+Proof. split; vm_compute; reflexivity. Qed.
+Theorem C13_callee_entries : ic_callees_ok ItemsEqGen.gen_itemseq_fns = true.
+Proof. vm_compute. reflexivity. Qed.
+
+(* hence: the container functions as the source says them now are the model (instances for the history model's steps) *)
+Theorem C13_coll_gen : forall lo oobs r c k fs,
+  run_coll_gen n_ic_append (Some (pic lo)) [vitems oobs] = Ok ([GvNil], Some (pic (ic_append_o lo (lst oobs)))) /\
+  run_coll_gen n_ic_remove (Some (pic lo)) [GvItem r] = Ok ([], Some (pic (ic_remove_o lo r))) /\
+  run_coll_gen (n_sc_append c) (Some (GvItem (IObj true k fs))) [vitems oobs]
+    = Ok ([GvNil], Some (GvItem (IObj true k (sc_append_fs (sc_field c) fs (lst oobs))))) /\
+  run_coll_gen (n_sc_contains c) (Some (GvItem (IObj true k fs))) [GvItem r]
+    = Ok ([GvBool (ic_contains (lst (get_items (sc_field c) fs)) r)], Some (GvItem (IObj true k fs))) /\
+  run_coll_gen n_to_ic None [GvItem r] = Ok (to_ic_expect r, None).
+Proof.
+  intros. unfold run_coll_gen, coll_env_gen.
+  repeat match goal with |- _ /\ _ => split end.
+  - exact (C13_append_table_tie _ C13_coll_table _ C13_callee_entries lo oobs).
+  - exact (C13_remove_table_tie _ C13_coll_table _ lo r).
+  - exact (C13_struct_append_table_tie _ C13_coll_table _ C13_callee_entries c k fs oobs).
+  - exact (C13_struct_contains_table_tie _ C13_coll_table _ c true k fs r).
+  - exact (C13_to_item_collection_table_tie _ C13_coll_table _ r).
+Qed.
+
+(* non-vacuity: the 24 functions are there; the generated tables evaluated (nothing hand-written but the interpreters
+   and the leaves): a variadic Append with a repeat, Remove, an ordered page's Append and Contains, ToItemCollection
+   pointing INTO the page, the IRI list *)
+Example C13_coll_gen_example :
+  length gen_coll_fns = 24 /\
+  run_coll_gen n_ic_append (Some (pic None)) [vitems (Some [cx_a; cx_b; cx_a])] = Ok ([GvNil], Some (pic (Some [cx_a; cx_b]))) /\
+  run_coll_gen n_ic_remove (Some (pic (Some [cx_a; cx_b]))) [GvItem cx_a] = Ok ([], Some (pic (Some [cx_b]))) /\
+  run_coll_gen (n_sc_append SOrderedPage) (Some (GvItem (cx_page [cx_a]))) [vitems (Some [cx_a; cx_b])]
+    = Ok ([GvNil], Some (GvItem (cx_page [cx_a; cx_b]))) /\
+  run_coll_gen (n_sc_contains SOrderedPage) (Some (GvItem (cx_page [cx_a]))) [GvItem cx_b]
+    = Ok ([GvBool false], Some (GvItem (cx_page [cx_a]))) /\
+  run_coll_gen n_to_ic None [GvItem (cx_page [cx_a])]
+    = Ok ([GvPtr (OInto F_OrderedItems) (Some (vitems (Some [cx_a]))); GvNil], None) /\
+  run_coll_gen n_iris_append (Some (piris None)) [vitems (Some [cx_a; cx_b; cx_a])]
+    = Ok ([GvNil], Some (piris (Some [cx_id "a"; cx_id "b"]))) /\
+  own_list_only (cx_page [cx_a]) = true.
+Proof. repeat match goal with |- _ /\ _ => split end; vm_compute; reflexivity. Qed.
+
+(* what the condition is for: the tables of sources in which (a) ItemCollection.Append lost its membership test,
+   (b) Remove lost the splice, (c) ONE of the five Contains copies (CollectionPage's) lost its loop, (d) ToItemCollection
+   hands back a pointer to a copy of an ordered page's list fail the condition; the diagnosis names function and
+   statement; and the meaning of each of those tables gives the wrong answer: a member appended twice, a member not
+   removed, a member not found, a pointer that no longer reaches the page (OFresh instead of OInto) *)
+Example C13_changed_body_rejected :
+  coll_table_ok coll_fns_append_unchecked = false /\
+  option_map (fun p => (fst p, option_map (fun q => fst (fst q)) (snd p))) (coll_first_bad coll_fns_append_unchecked)
+    = Some (n_ic_append, Some 0) /\
+  run_named coll_env_gen coll_fns_append_unchecked n_ic_append (Some (pic (Some [cx_a]))) [vitems (Some [cx_a])]
+    = Ok ([GvNil], Some (pic (Some [cx_a; cx_a]))) /\
+  coll_table_ok coll_fns_remove_no_splice = false /\
+  option_map (fun p => (fst p, option_map (fun q => fst (fst q)) (snd p))) (coll_first_bad coll_fns_remove_no_splice)
+    = Some (n_ic_remove, Some 6) /\
+  run_named coll_env_gen coll_fns_remove_no_splice n_ic_remove (Some (pic (Some [cx_a]))) [GvItem cx_a]
+    = Ok ([], Some (pic (Some [cx_a]))) /\
+  coll_table_ok coll_fns_page_contains_no_loop = false /\
+  option_map (fun p => (fst p, option_map (fun q => fst (fst q)) (snd p))) (coll_first_bad coll_fns_page_contains_no_loop)
+    = Some (n_sc_contains SCollectionPage, Some 1) /\
+  run_named coll_env_gen coll_fns_page_contains_no_loop (n_sc_contains SCollectionPage)
+            (Some (GvItem (IObj true KCollectionPage [(F_Items, FItems (Some [cx_a]))]))) [GvItem cx_a]
+    = Ok ([GvBool false], Some (GvItem (IObj true KCollectionPage [(F_Items, FItems (Some [cx_a]))]))) /\
+  coll_table_ok coll_fns_toic_copy = false /\
+  option_map (fun p => (fst p, option_map (fun q => fst (fst q)) (snd p))) (coll_first_bad coll_fns_toic_copy)
+    = Some (n_to_ic, Some 1) /\
+  run_named coll_env_gen coll_fns_toic_copy n_to_ic None [GvItem (cx_page [cx_a])]
+    = Ok ([GvPtr OFresh (Some (vitems (Some [cx_a]))); GvNil], None).
+Proof. repeat match goal with |- _ /\ _ => split end; vm_compute; reflexivity. Qed.
